@@ -74,7 +74,9 @@ def judge_pairs(ctx, name, a, b, ret, symmetric=True):
                           'the two curves\' points at the reported parameters do not coincide',
                           {'a': gen.seg_spec(a), 'b': gen.seg_spec(b), 'pair': [t1, t2], 'distance': d, 'tol': tol})
             return
-    if not symmetric:
+    if not symmetric or I.general_arcs(a, b):
+        # general arc-arc pairs: documented as not fully implemented; the claim covers whatever is returned
+        # (in range, real), not that both operand orders find the same crossings
         return
     # swap symmetry, on crossings
     try:
